@@ -95,6 +95,10 @@ def cases(tier, seed):
         for mode in ("inline", "deferred", "noise"):
             out.append({"part": "strings", "lens": [a, min(a + 9, N)], "mode": mode, "seed": seed})
     out.append({"part": "access"})
+    # round trips AFTER something failed on the same client / server objects (refused write, vetoing callback, transfer
+    # the client gave up on): the failure must not leak into the next value
+    for fail in FAILURES:
+        out.append({"part": "after-failure", "fail": fail, "seed": seed})
     # every code point as first and as last character of a string (quick: the ranges where encodings have special cases)
     if tier == "quick":
         rng = [(0x01, 0x180), (0x2000, 0x2070), (0x3000, 0x3002), (0xD7F0, 0xD800), (0xE000, 0xE010), (0xFE00, 0x10000)]
@@ -243,6 +247,78 @@ def run_strings(case, st):
             if L in (0, 4, 5, 7, 8) or L % 7 == 0:
                 st.nontrivial.add((tname, L, case["mode"]))
     st.outcome("strings ok")
+
+
+FAILURES = ("wrong-length-segmented", "wrong-length-expedited", "veto-callback-segmented", "veto-callback-expedited",
+            "read-callback-raises", "upload-abandoned", "download-abandoned", "missing-object", "two-failures")
+
+
+def run_after_failure(case, st):
+    import canopen
+    fail = case["fail"]
+    seed = case.get("seed", 0)
+    values = [("VISIBLE_STRING", "second label", b"second label"), ("UNSIGNED32", 0xCAFE0001, struct.pack("<L", 0xCAFE0001)),
+              ("DOMAIN", simenv.pattern(9, seed), simenv.pattern(9, seed)), ("OCTET_STRING", b"ab", b"ab"),
+              ("UNICODE_STRING", "xyz", "xyz".encode("utf-16-le")), ("INTEGER16", -2, struct.pack("<h", -2)),
+              ("DOMAIN", simenv.pattern(30, seed + 1), simenv.pattern(30, seed + 1))]
+    for first in range(len(values)):
+        p = Pair("inline")
+        remote, local = p.remote[5], p.local[5]
+        veto = {"on": False}
+
+        def on_write(index, subindex, od, data):
+            if veto["on"]:
+                raise canopen.SdoAbortedError(0x08000020)
+
+        def on_read(index, subindex, od):
+            if veto["on"]:
+                raise canopen.SdoAbortedError(0x08000024)
+            return None
+        local.add_write_callback(on_write)
+        local.add_read_callback(on_read)
+        # a value that is there before the failure (it must survive it)
+        remote.sdo["T_VISIBLE_STRING"].raw = "SN-0012345678"
+        kinds = [fail] if fail != "two-failures" else ["wrong-length-segmented", "upload-abandoned"]
+        for kind in kinds:
+            try:
+                if kind == "wrong-length-segmented":
+                    remote.sdo.download(p.idx["UNSIGNED32"], 0, b"123456789", force_segment=True)
+                elif kind == "wrong-length-expedited":
+                    remote.sdo.download(p.idx["UNSIGNED32"], 0, b"12")
+                elif kind.startswith("veto-callback"):
+                    veto["on"] = True
+                    remote.sdo["T_DOMAIN"].raw = b"vetoed-data!" if kind.endswith("segmented") else b"no"
+                elif kind == "read-callback-raises":
+                    veto["on"] = True
+                    remote.sdo["T_VISIBLE_STRING"].raw
+                elif kind == "missing-object":
+                    remote.sdo.upload(0x5FFF, 0)
+                elif kind == "upload-abandoned":
+                    with remote.sdo.open(p.idx["VISIBLE_STRING"], 0, "rb", buffering=0) as fp:
+                        fp.read(7)                 # the application loses interest after the first segment
+                    raise canopen.SdoCommunicationError("abandoned")
+                elif kind == "download-abandoned":
+                    try:
+                        with remote.sdo.open(p.idx["DOMAIN"], 0, "wb", buffering=0, size=20) as fp:
+                            fp.write(b"1234567")   # first segment of 20 announced bytes, then the application fails
+                            raise KeyError("application error")
+                    except KeyError:
+                        pass
+                    raise canopen.SdoCommunicationError("abandoned")
+                st.violation(f"C03:after-failure:{kind}:not-refused", dict(case, first=first), "an SDO error", "returned normally")
+            except (canopen.SdoAbortedError, canopen.SdoCommunicationError):
+                pass
+            except Exception as e:  # noqa: BLE001
+                st.violation(f"C03:after-failure:{kind}:raises:{type(e).__name__}", dict(case, first=first), "an SDO error", repr(e)[:120])
+            veto["on"] = False
+        rc = dict(case, first=first)
+        st.nontrivial.add(("after-failure", fail, first))
+        order = values[first:] + values[:first]
+        ok = True
+        for tname, v, enc in order:
+            ok = roundtrip(p, st, rc, tname, v, enc, by="index", sigkind=f"after-failure:{fail}:{tname}") and ok
+        if ok:
+            st.outcome("after-failure ok")
 
 
 def run_codepoints(case, st):
@@ -555,7 +631,7 @@ def run_inline_threads(case, st):
 def run_case(case, st):
     if case["part"] == "inline-threads":
         return run_inline_threads(case, st)
-    {"codepoints": run_codepoints, "ints": run_ints, "other": run_other, "strings": run_strings, "access": run_access, "sched": run_sched,
+    {"after-failure": run_after_failure, "codepoints": run_codepoints, "ints": run_ints, "other": run_other, "strings": run_strings, "access": run_access, "sched": run_sched,
      "late-dup": run_latedup}[case["part"]](case, st)
 
 
